@@ -1,8 +1,8 @@
 (* Pointer-level model, as coded, of the vnaproperty list container (src/vnaproperty.c):
    list_check_allocation (growth policy), list_subtree, list_insert, list_append, list_delete,
    scalar_alloc, the tail of vnaproperty_vset (allocate the value, free the old one, install) and
-   vnaproperty_free of a list.  [Fixed] follows the code with the D02 (list_delete) and D39
-   (index + 1 in size_t) repairs; [Orig] is the code as first read (kept for the refutations).
+   vnaproperty_free of a list.  [Fixed] follows the code with the D02 (list_delete), D39 (index + 1 in size_t) and D39b
+   (index INT_MAX refused) repairs, i.e. the current tree; [Orig] is the code as first read (kept for the refutations).
    The cells of the vector above vpl_length are not represented: the C code keeps them NULL
    (memset after realloc, vector[--length] = NULL after delete).  No proofs in this file. *)
 Require Import List ZArith Bool Arith Lia.
@@ -71,7 +71,9 @@ Definition list_subtree (v : variant) (l : plist) (add : bool) (index : Z) : M (
                          if ok then ret (mkL (lblk l') (vec l') (lalloc l')
                                              (items l' ++ repeat None (Z.to_nat (index + 1 - llen l'))), Some index, E0)
                          else ret (l', None, ENOMEM))
-         | Fixed => r <- check_allocation l (index + 1) ;;
+         | Fixed => if index =? INT_MAX then ret (l, None, EINVAL)      (* D39b: length must fit an int *)
+                    else
+                    r <- check_allocation l (index + 1) ;;
                     (let (ok, l') := r in
                      if ok then ret (mkL (lblk l') (vec l') (lalloc l')
                                          (items l' ++ repeat None (Z.to_nat (index + 1 - llen l'))), Some index, E0)
